@@ -817,6 +817,8 @@ class C18:
                         if rf.status == "OK" and math.isqrt(rf.zl(0)[0]) ** 2 == rf.zl(0)[0]:
                             P.fail(S, "cpk-structure", "the own modulus of the commitment key is a square when the prime search returns the same prime twice", [str(rf.zl(0)[0])])
                 if k == 0 and suite in ("toy", "toy2"):
+                    # commitment keys through their JSON encoding: zero, one and several bases, issuer modulus and own modulus
+                    S.run(["clcpkjson %s %s %d" % (suite, nn_, nb_) for nn_ in (str(N), "N") for nb_ in (0, 1, 3)], expect=true_, label="cpk-json-roundtrip", model=False)
                     # the exponent draw of a commitment-key base forced to 0 (g = h^0 = 1): the base must be drawn again
                     r0 = S.run(["clcpk %s %d 2" % (suite, N)], expect="ok", label="triv:cpk")[0]
                     dr0 = parse_draws(r0) if r0.status == "OK" else []
@@ -1045,7 +1047,9 @@ class C19:
                 subsets = list(Q.all_subsets(n, nonempty=True)) if suite == "toy" else [[1], list(range(n))]
                 for U in subsets:
                     for trusted in (False, True):
-                        f = issue(S, x, msgs, U, trusted, label="triv:issue")
+                        # without the trusted party the LAST hidden attribute is 0, with it the first one: a hidden zero is blinded like any other value
+                        mi_ = list(msgs); mi_[U[0] if trusted else U[-1]] = 0
+                        f = issue(S, x, mi_, U, trusted, label="triv:issue")
                         if not f: continue
                         zk = f["zk"]["CL03"]
                         pm = zk["proof_commited_msgs"]
@@ -1055,12 +1059,12 @@ class C19:
                         pr = zk["proof_r"]
                         chal.append(("c(r)", sha_int(str(x.bases[0]) + str(b) + str(clj.get(pr, ("commitment", "value"))) + str(clj.get(pr, ("value", "t"))))))
                         if zk["proof_C_Ctrusted"]: chal.append(("c(trusted)", clj.get(zk["proof_C_Ctrusted"], ("challenge",))))
-                        secrets = [("m_%d" % i, msgs[i]) for i in U] + [("r", f["C"][1])] + ([("r_trusted", f["Ct"][1])] if f["Ct"] else [])
+                        secrets = [("m_%d" % i, mi_[i]) for i in U] + [("r", f["C"][1])] + ([("r_trusted", f["Ct"][1])] if f["Ct"] else [])
                         secrets += [("randomness_%d" % k, v) for k, (kd, prm, v) in enumerate(f["zk_draws"]) if kd == "bits" and prm == [ln]]
                         q_, r_ = masking_attack(S, f["zk"], chal, secrets, "zkpok"); stats["quotients"] += q_; stats["responses"] += r_; stats["proofs"] += 1
-                        stats["quotients"] += difference_attack(S, f["zk"], chal[:1] + chal[-1:], [(i, msgs[i]) for i in U], "zkpok")
+                        stats["quotients"] += difference_attack(S, f["zk"], chal[:1] + chal[-1:], [(i, mi_[i]) for i in U], "zkpok")
                         if zk["proof_C_Ctrusted"]:
-                            stats["quotients"] += cross_vector_attack(S, f["zk"], chal[:1] + chal[-1:], [msgs[i] for i in U], "zkpok")
+                            stats["quotients"] += cross_vector_attack(S, f["zk"], chal[:1] + chal[-1:], [mi_[i] for i in U], "zkpok")
                     r = S.run([spokgen_line(x, sig, msgs, U)], expect="ok", label="triv:proof_gen")[0]
                     if r.status == "OK":
                         doc = r.json(0); dr = parse_draws(r); sp = doc["CL03"]["spok"]
